@@ -62,3 +62,13 @@ def _techlibs():
     from translate import gen_techlibs
     from vcheck import core
     return gen_techlibs.generate(os.path.join(core.REPO, 'src', 'kyupy', 'techlib.py'))[0]
+
+
+@register('LogicTables')
+def _logic_tables():
+    import os
+    import kyupy
+    from translate import gen_logic_tables
+    from kyupy import logic
+    from vcheck import core
+    return gen_logic_tables.generate(logic, kyupy, os.path.join(core.REPO, 'src', 'kyupy', 'logic.py'))[0]
